@@ -341,3 +341,10 @@ def skolem(n, name='p'):
     return k
 
 from .spec import SpecFn   # noqa
+
+
+def use_lemma(name, cond):
+    """assume an instance of a lemma that is proved (by induction) in the lemma harness `name` of the same property"""
+    ctx.add(sc.tobool(cond))
+    ctx.assumed.append('lemma instance assumed: %s (discharged by its own lemma harness)' % name)
+    ctx.axiom_log.add('lemma:%s' % name)
